@@ -249,10 +249,8 @@ func ruleWireLoad(w *World, r *RuleResult) {
 			for _, l := range loaders {
 				if fnKey(l) == callee {
 					// the '88 reader is the one using the '88 opcode reader
-					for _, call := range w.Callers(aa.OpReader88) {
-						if call.Parent() == l {
-							uses88 = true
-						}
+					if callsWithin(w, l, aa.OpReader88) {
+						uses88 = true
 					}
 				}
 			}
@@ -434,10 +432,16 @@ func ruleExprEval(w *World, r *RuleResult) {
 		// string building loop
 		if p.End == "backedge" {
 			be := p.Events[len(p.Events)-1]
-			for _, a := range be.Args {
+			cats := append([]*T(nil), be.Args...)
+			for _, e := range p.Events {
+				if e.Kind == "store" && e.LV.Op == "sel" && e.LV.S == "$text" {
+					cats = append(cats, e.Val) // the text is accumulated in a builder
+				}
+			}
+			for _, a := range cats {
 				if a.Op == "cat" {
 					left, right := a.A[0], stripConv(a.A[1])
-					good := left.Op == "loopvar" && right.Op == "sel" && right.S == "val" && right.A[0].Op == "elem" && stripConv(right.A[0].A[1]).contains(func(x *T) bool { return x.Op == "loopvar" })
+					good := (left.Op == "loopvar" || (left.Op == "sel" && left.S == "$text")) && right.Op == "sel" && right.S == "val" && right.A[0].Op == "elem" && stripConv(right.A[0].A[1]).contains(func(x *T) bool { return x.Op == "loopvar" })
 					// the sequence iterated is f2(f1(expr)) with both rewriting passes
 					seq := stripConv(right.A[0].A[0])
 					two := seq.Op == "call" && len(seq.A) == 1 && stripConv(seq.A[0]).Op == "call" && len(stripConv(seq.A[0]).A) == 1 && stripConv(stripConv(seq.A[0]).A[0]).Op == "p"
@@ -558,14 +562,11 @@ func ruleForLabels(w *World, r *RuleResult) {
 					continue
 				}
 				found = true
-				// guarded by field != nil and IsOp on the look-ahead
-				notNil := hasCond(p, func(a *T, vv bool) bool {
-					return a.Op == "eq" && !vv && a.A[1].Op == "nil" && stripConv(a.A[0]).Op == "sel" && stripConv(a.A[0]).S == b.S
-				})
+				// guarded by IsOp on the look-ahead (ranging over the pending list needs no nil test: an empty list emits nothing)
 				atOp := hasCond(p, func(a *T, vv bool) bool {
 					return a.Op == "call" && vv && strings.HasSuffix(a.S, ".IsOp") && len(a.A) == 1 && m.lookTok(a.A[0])
 				})
-				d.add(notNil && atOp, s.Name()+"/emit-guard", w.Pos(instrPosE(e)), "mangled block labels are emitted only when still pending and the look-ahead is an instruction", "mangled block labels are emitted without (still pending ∧ next token is an opcode)")
+				d.add(atOp, s.Name()+"/emit-guard", w.Pos(instrPosE(e)), "mangled block labels are emitted (from the pending list) only when the look-ahead is an instruction", "mangled block labels are emitted although the next token is not an opcode")
 			}
 			// after the emission loop the pending list is cleared on the path that leaves the loop
 			for i := range p.Events {
@@ -687,7 +688,9 @@ func ruleSignParity(w *World, r *RuleResult) {
 				}
 				// a loop-carried value that is updated differently on '-': the sign state
 				found = true
-				dep := m.args[i].contains(func(x *T) bool { return x.Op == "loopvar" && o.args[i].contains(func(y *T) bool { return y.Key() == x.Key() }) })
+				dep := m.args[i].contains(func(x *T) bool {
+					return x.Op == "loopvar" && o.args[i].contains(func(y *T) bool { return y.Key() == x.Key() })
+				})
 				d.add(dep, f1.Name()+"/sign-state", m.pos, "on '-' the sign state is computed from its previous value (toggle or count)", "on '-' the run's sign state becomes "+m.args[i].Show()+" regardless of its previous value ("+o.args[i].Show()+" otherwise): any run containing a '-' folds to '-', so an even number of negations (1---1, 2*--1, 5*-x with x equ -1) is evaluated as a negation")
 			}
 		}
